@@ -190,9 +190,9 @@ def mon_mapping_portfolio(case, pev, children, prefix='portfolio'):
 # -------------------------------------------------------------------------------------------------
 # C03
 # -------------------------------------------------------------------------------------------------
-def mon_optimize(case, ev, check_optimality=True, time_limit=30.):
+def mon_optimize(case, ev, check_optimality=True, time_limit=30., scaled_only=False, snap_override=None):
     """At every OptimProblem.optimize return."""
-    s = ev.snap
+    s = ev.snap if snap_override is None else snap_override
     res = ev.ret
     if s is None or ev.exc is not None:
         return
@@ -205,6 +205,20 @@ def mon_optimize(case, ev, check_optimality=True, time_limit=30.):
     bi = solve.bool_vars(s) if not soft else np.zeros(0, int)
     is_mip = len(bi) > 0
     info['n_bool'] = int(len(bi))
+    # status handling: what EAO reports vs. what the solver itself reported (cvxpy status recorded at the solver boundary)
+    st = ev.extra.get('cvx_status')
+    if st is not None:
+        reported = 'success' if not isinstance(res, str) else res
+        want = 'success' if st == 'optimal' else ('inaccurate' if st == 'optimal_inaccurate' else 'not successful')
+        case.check('opt.status_mapping', reported == want, nonvacuous=True, **info, solver_status=st, reported=reported)
+        if st == 'optimal_inaccurate':
+            case.event('solver_flagged_inaccurate')
+    if scaled_only:
+        if not isinstance(res, str):
+            x = np.asarray(res.x, dtype=float)
+            v = float(-np.dot(s.c, x))
+            case.check('opt.value_is_minus_cx', abs(float(res.value) - v) <= 1e-6 * (1. + abs(v)), **info, value=float(res.value), minus_cx=v)
+        return
     case.feature('mip' if is_mip else 'lp', 'solver:' + str(solver))
     if isinstance(res, str):
         if res == 'inaccurate':
